@@ -340,6 +340,7 @@ def install(it):
     def cxa_begin_catch(it, a):
         # a[0] is the exception object pointer from the landingpad
         u = it.find_exception(a[0])
+        if u is not None: u.in_flight = False
         it.exc_stack.append(u)
         it.uncaught = max(0, it.uncaught - 1)
         return a[0]
@@ -489,6 +490,7 @@ def install(it):
             raise MemoryError_('terminate', 'rethrow_exception(null)', it.where())
         it.uncaught += 1
         it.events.append(('rethrow_exception', it.typeinfo_name(u.tinfo), it.where()))
+        u.in_flight = True      # the exception object stays alive while it propagates, whatever happens to the exception_ptr copies
         raise u
     reg('_ZSt17rethrow_exceptionNSt15__exception_ptr13exception_ptrE', rethrow_exception)
 
